@@ -617,6 +617,17 @@ var (
 
 func fullLicense() *lc.License {
 	fullOnce.Do(func() {
+		// another, small archive has been loaded in this process before (a tool that first builds a
+		// classifier over a subset): what a later classifier knows must not depend on it
+		{
+			var small bytes.Buffer
+			if err := serializer.ArchiveLicenses([]string{"MIT.txt", "ISC.txt", "Unlicense.txt"}, &small); err != nil {
+				panic(err)
+			}
+			if _, err := lc.New(lc.DefaultConfidenceThreshold, lc.ArchiveBytes(small.Bytes())); err != nil {
+				panic(err)
+			}
+		}
 		var buf bytes.Buffer
 		if err := serializer.ArchiveLicenses(licenseFiles(), &buf); err != nil {
 			panic(err)
